@@ -369,13 +369,35 @@ func genServe(r *Rng, tier string, n int, emit func(string)) {
 				routes = append(routes, fmt.Sprintf("%s,%s,%d,%d", fm, hx(hp+tail), Pick(cr, []int{0, 1, 2}), len(routes)+1))
 			}
 		}
+		// redirect family: a redirecting route whose last segment is a parameter in front of a literal slash (add-a-slash
+		// redirects) and its sibling without the slash (remove-a-slash redirects), probed with reserved-character segments
+		var forced [][2]string
+		if cr.Chance(12) {
+			fm := Pick(cr, methods)
+			base := Pick(cr, []string{"/rd", "", "/rd/{k}"})
+			routes = append(routes, fmt.Sprintf("%s,%s,%d,%d", fm, hx(base+"/{x}/"), 2, len(routes)+1))
+			pats = append(pats, base+"/{x}/")
+			if cr.Bool() {
+				routes = append(routes, fmt.Sprintf("%s,%s,%d,%d", fm, hx(base+"/q/{y}"), 2, len(routes)+1))
+				pats = append(pats, base+"/q/{y}")
+			}
+			ib := strings.ReplaceAll(base, "{k}", "v")
+			for j := 0; j < 5; j++ {
+				forced = append(forced, [2]string{fm, ib + "/" + Pick(cr, oddSegs)})
+			}
+			forced = append(forced, [2]string{fm, ib + "/q/" + Pick(cr, oddSegs) + "/"})
+		}
 		var reqs []string
-		nr := 6 + cr.Intn(10)
+		nr := 6 + cr.Intn(10) + len(forced)
 		for i := 0; i < nr; i++ {
 			probe := genProbe(cr, pats, append(methods, "OPTIONS", "GET", "CONNECT"))
 			a := strings.Split(probe, ",")
 			m, host, path := a[1], a[2], unhx(a[3])
+			if i < len(forced) {
+				m, host, path = forced[i][0], "_", forced[i][1]
+			}
 			switch x := cr.Intn(40); {
+			case i < len(forced):
 			case x == 0:
 				path = "*"
 				m = "OPTIONS"
